@@ -53,6 +53,10 @@ var docs = []*docVar{
 	mkDoc("nn", "subscription { ", "nn", " }", "nn", nil, ""),
 	mkDoc("o", "subscription { ", "o", " { seq kind } }", "o", nil, ""),
 	mkDoc("arg", "subscription S($p: String!) { ", "a: s(p: $p)", " }", "a", map[string]interface{}{"p": "P"}, "P"),
+	// variables whose coerced form differs from the caller's: an enum whose
+	// internal values are not its names, supplied and defaulted
+	mkDoc("enumvar", "subscription S($m: Mode) { ", "a: s(m: $m)", " }", "a", map[string]interface{}{"m": "FAST"}, "<7>"),
+	mkDoc("enumdef", "subscription S($m: Mode = SLOW) { ", "a: s(m: $m)", " }", "a", nil, "<slow!>"),
 }
 
 func docByName(n string) *docVar {
@@ -101,6 +105,9 @@ func subscribeFn(p graphql.ResolveParams) (interface{}, error) {
 	if s, ok := p.Args["p"].(string); ok {
 		args = "p=" + s
 	}
+	if m, ok := p.Args["m"]; ok {
+		args += fmt.Sprintf("m=<%v>", m)
+	}
 	r.logEv("subscribe-invoked", 0, args)
 	defer r.signalSubscribed()
 	switch r.s.Req {
@@ -128,6 +135,9 @@ func resolveLeaf(p graphql.ResolveParams) (interface{}, error) {
 	prefix := ""
 	if s, ok := p.Args["p"].(string); ok {
 		prefix = s
+	}
+	if m, ok := p.Args["m"]; ok {
+		prefix += fmt.Sprintf("<%v>", m)
 	}
 	switch pl.Kind {
 	case "ferr":
@@ -169,7 +179,9 @@ func init() {
 			return pl.Kind, nil
 		}},
 	}})
-	argP := graphql.FieldConfigArgument{"p": &graphql.ArgumentConfig{Type: graphql.String}}
+	mode := graphql.NewEnum(graphql.EnumConfig{Name: "Mode", Values: graphql.EnumValueConfigMap{
+		"FAST": &graphql.EnumValueConfig{Value: 7}, "SLOW": &graphql.EnumValueConfig{Value: "slow!"}}})
+	argP := graphql.FieldConfigArgument{"p": &graphql.ArgumentConfig{Type: graphql.String}, "m": &graphql.ArgumentConfig{Type: mode}}
 	sub := graphql.Fields{
 		"s":     &graphql.Field{Type: graphql.String, Args: argP, Subscribe: subscribeFn, Resolve: resolveLeaf},
 		"nn":    &graphql.Field{Type: graphql.NewNonNull(graphql.String), Subscribe: subscribeFn, Resolve: resolveLeaf},
